@@ -201,3 +201,6 @@ Proof.
   pose proof (batch_loop_map st keys (match p_cache st with Some c => c | None => [] end) k) as H.
   destruct (p_batch_loop st keys _) as [m c]. exact H.
 Qed.
+
+Lemma flush_status st : snd (pstep st PFlush) = 1%nat <-> b_stages (p_mem st) <> [].
+Proof. cbn [pstep]. destruct (b_stages (p_mem st)); cbn [snd]; split; intros; try discriminate; try reflexivity; congruence. Qed.
